@@ -27,8 +27,11 @@
     with `pyarrow.ipc` replaced by a reader whose open / first read raises a *symbolic* member of
     the classes pyarrow and the wire layer raise for client bytes (ArrowInvalid, OSError,
     StopIteration, EOFError, TypeError, KeyError, ValueError, IndexError, RpcError, VersionError,
-    RuntimeError, NotImplementedError) or yields a batch without state token: nothing escapes the
-    resource, the answer is a 400 Arrow error response.  Replay: real bytes on the real app only.
+    RuntimeError, NotImplementedError, every `pa.ArrowException` subclass of the live pyarrow —
+    ArrowKeyError, ArrowNotImplementedError, ArrowCapacityError, ... —, the wrapper's IPCError) or
+    yields a batch without state token: nothing escapes the resource, the answer is a 400 Arrow
+    error response.  Replay: real bytes on the real app only, including every single-byte
+    corruption (4 patterns per offset) of a well-formed request with int + dictionary columns.
 (f) every `raise falcon.X(...)` site of the live _middleware.py (AST scan; a site without a scenario
     is a harness error): the REAL middleware instance of a REAL `make_wsgi_app` runs on a real
     `falcon.Request`, what it raises goes through the app's own `_handle_exception` (the serializer
@@ -36,10 +39,12 @@
     status is 401 or 415 (503 = authority unreachable, not client-controlled, not asserted).
     Replay: the same request through make_sync_client.
 (g) unary / init routes: the REAL `_read_request` (inside the real dispatchers and resources) over a
-    `pyarrow.ipc` whose open / first read / drain raises a *symbolic* member of {ArrowInvalid,
-    OSError (= ArrowIOError: bad message header, truncated body), StopIteration}: malformed IPC is
-    400 whatever class pyarrow uses.  Replay: a bad header, EVERY proper prefix of a well-formed
-    request, garbage, a schema-only stream on the real app.
+    `pyarrow.ipc` whose open / first read / drain raises a *symbolic* member of {OSError (=
+    ArrowIOError: bad message header, truncated body), StopIteration, every `pa.ArrowException`
+    subclass of the live pyarrow but ArrowMemoryError / ArrowCancelled}: malformed IPC is 400
+    whatever class pyarrow uses.  Replay: a bad header, EVERY proper prefix of a well-formed
+    request, garbage, a schema-only stream, every single-byte corruption on the real app (a body
+    pyarrow itself refuses must be 400; one it still reads: anything but a bare 5xx).
 """
 
 from __future__ import annotations
@@ -55,7 +60,7 @@ from io import BytesIO
 import falcon
 import pyarrow as pa
 
-from engine.api import REPO, HarnessModelError, cond, pick
+from engine.api import REPO, HarnessModelError, cond, is_open, pick
 from engine.reglob import reglobalize
 
 from vgi_rpc.http._common import _ARROW_CONTENT_TYPE, RPC_ERROR_HEADER, _RpcHttpError
@@ -81,10 +86,10 @@ _LM = pick(3, 5)
 BOUNDS = (
     "content type = exact Arrow type | absent | any string len<=%d; method = a unary name | a stream name | any string len<=%d; route in {unary, init, exchange}; "
     "failing validation step in {read, name, version gate (real), deserialize, signature, params} x 9-10 exception classes x 5 protocol-version situations; "
-    "request decoding (g): {unary, init} x {open, read, drain} x {ArrowInvalid, OSError, StopIteration}; max-bytes: path = prefix + '/' + any string len<=%d, ints 0..%d" % (_LM, _LM, pick(8, 10), pick(999, 99999))
+    "request decoding (g): {unary, init} x {open, read, drain} x {OSError, StopIteration, pa.ArrowException subclasses}; max-bytes: path = prefix + '/' + any string len<=%d, ints 0..%d" % (_LM, _LM, pick(8, 10), pick(999, 99999))
 )
 OUTSIDE = (
-    "Falcon routing and Falcon's own error responses (405, 404 sink); which exception class pyarrow raises for which malformed bytes beyond the three of (g) (the classes are a symbolic dimension); "
+    "Falcon routing and Falcon's own error responses (405, 404 sink); which exception class pyarrow raises for which malformed bytes (the classes are a symbolic dimension: pyarrow's whole ArrowException hierarchy except ArrowMemoryError/ArrowCancelled, which say nothing about the bytes); "
     "whether an exception class that no step's contract attributes to the caller (plain OSError / RuntimeError while reading — possibly a storage failure of an external location —, RuntimeError from a check, ...) is answered 400 or 200+marker, "
     "and which refusal wins when a version rejection and a later step's failure coincide: both answers are admitted; other 5xx HTTPStatus members the server package might name (none today); the upload-url route; "
     "the exchange dispatcher after request reading (tokens, see C12/C13); WHEN the compression middleware raises (C17/C19) — how what it raises is rendered is inside; 401 body shape (C21); how the max-bytes middleware measures a chunked body (C17); "
@@ -737,7 +742,33 @@ def error_response_body_is_decodable_arrow(si: int, ei: int) -> bool:
 
 # Classes pyarrow / the wire layer raise for client bytes (ArrowIOError is OSError: "Invalid IPC
 # message: negative metadata length"; a schema-only stream ends with StopIteration; ...).
+def _decoder_classes() -> list:
+    """Every class of the live pyarrow's own exception hierarchy (`pa.ArrowException` subclasses:
+    ArrowInvalid, ArrowKeyError, ArrowTypeError, ArrowNotImplementedError, ArrowCapacityError,
+    ArrowIndexError, ArrowSerializationError, ...) — what its IPC reader answers well-framed but
+    corrupt bytes with (a schema Int of 128 bits: ArrowNotImplementedError; an altered dictionary id:
+    ArrowKeyError).  Not: ArrowMemoryError / ArrowCancelled, which say nothing about the bytes."""
+    out: list = []
+
+    def walk(c: type) -> None:
+        for sub in c.__subclasses__():
+            if sub not in out and str(sub.__module__).startswith("pyarrow"):
+                out.append(sub)
+            walk(sub)
+
+    walk(pa.ArrowException)
+    skip = [getattr(pa, n, None) for n in ("ArrowMemoryError", "ArrowCancelled")]
+    return [c for c in out if c not in skip]
+
+
+_DECODER_EXC = _decoder_classes()
+if pa.ArrowInvalid not in _DECODER_EXC or len(_DECODER_EXC) < 4:
+    raise RuntimeError(f"implausible pyarrow exception hierarchy: {_DECODER_EXC}")
+import vgi_rpc.utils as _utils_mod  # noqa: E402
+
+_IPC_ERROR = getattr(_utils_mod, "IPCError", None)  # the reader wrapper's own "batch fails validation"
 _WIRE_EXC = [pa.ArrowInvalid, OSError, StopIteration, EOFError, TypeError, KeyError, ValueError, IndexError, RpcError, VersionError, RuntimeError, NotImplementedError]
+_WIRE_EXC += [c for c in _DECODER_EXC + ([_IPC_ERROR] if _IPC_ERROR is not None else []) if c not in _WIRE_EXC]
 _NWIRE = len(_WIRE_EXC)
 _XOUT = {"stage": 0, "kind": 0}
 
@@ -794,11 +825,12 @@ class _XHolder:
 def _replay_exchange(a: dict) -> str | None:
     """Real app, real bytes only: every malformed exchange body for which a real byte string is
     known (garbage, bad message header, every proper prefix of a well-formed exchange request, a
-    stream that ends after its schema, a well-formed batch without state token), the ones pyarrow
+    stream that ends after its schema, a well-formed batch without state token, every single-byte
+    corruption of a well-formed request with int and dictionary columns), the ones pyarrow
     answers with the counterexample's class first.  For a class no real bytes are known for, a
     kernel-only counterexample stays INCONCLUSIVE (None)."""
     cls = _WIRE_EXC[a["kind"]] if a["stage"] < 2 else None
-    return _real_malformed_bodies(2, cls, no_token=(a["stage"] >= 2))
+    return _real_malformed_bodies(2, cls, no_token=(a["stage"] >= 2), corrupt=True)
 
 
 _X_POST = reglobalize(_resources._ExchangeResource.on_post, _set_error_response=_recording_set_error_response, _get_request_stream=_fake_stream)
@@ -1141,23 +1173,83 @@ def _paths(route: int, method: str) -> str:
     return "/" + method + ("", "/init", "/exchange")[route]
 
 
-def _exchange_request(no_token: bool) -> bytes:
-    """A well-formed exchange input batch for `fed` (state token absent, or one nobody issued)."""
-    sch = pa.schema([pa.field("v", pa.int64())])
+def _exchange_request(no_token: bool, dictionary: bool = False) -> bytes:
+    """A well-formed exchange input batch for `fed` (state token absent, or one nobody issued);
+    `dictionary`: with a dictionary-encoded column next to the int one (decoding precedes every
+    check of the batch against the method's input schema)."""
     md = None if no_token else pa.KeyValueMetadata({STATE_KEY: b"\x00" * 48})
     buf = BytesIO()
+    if dictionary:
+        sch = pa.schema([pa.field("v", pa.int64()), pa.field("c", pa.dictionary(pa.int16(), pa.string()))])
+        batch = pa.RecordBatch.from_arrays([pa.array([1, 2]), pa.array(["a", "b"]).dictionary_encode().cast(sch.field(1).type)], schema=sch)
+    else:
+        sch = pa.schema([pa.field("v", pa.int64())])
+        batch = pa.RecordBatch.from_pydict({"v": [1]}, schema=sch)
     with pa.ipc.new_stream(buf, sch) as w:
-        w.write_batch(pa.RecordBatch.from_pydict({"v": [1]}, schema=sch), custom_metadata=md)
+        w.write_batch(batch, custom_metadata=md)
     return buf.getvalue()
 
 
-def _real_malformed_bodies(route: int, cls=None, no_token: bool = False) -> str | None:  # noqa: ANN001
+_FLIP_MASKS = (0x01, 0x80, 0xC0, 0xFF)
+_SIG_OTHER_ARROW = "C15:request-decoding:other-arrow-error-not-400"
+
+
+def _pyarrow_says(body: bytes):  # noqa: ANN201
+    """None when pyarrow itself reads `body` as a complete IPC stream, else the class it refuses it with."""
+    try:
+        rd = pa.ipc.open_stream(body)
+        while True:
+            rd.read_next_batch_with_custom_metadata()
+    except StopIteration:
+        return None
+    except Exception as e:  # noqa: BLE001
+        return type(e)
+
+
+def _real_corrupted_bodies(route: int, cls=None) -> str | None:  # noqa: ANN001
+    """Well-framed but corrupt: every single-byte corruption (4 bit patterns per offset) of a
+    well-formed request with int and dictionary columns.  A body pyarrow itself refuses (whatever
+    the class: ArrowNotImplementedError for a 128-bit Int, ArrowKeyError for an unknown dictionary
+    id, ...) is malformed IPC => 400 + Arrow error body.  A body pyarrow still reads may be served,
+    refused (metadata, token, validation) or fail in the method: anything but a bare 5xx."""
+    server, client = _battery_client(False)
+    method = _UNARY_NAME if route == 0 else _STREAM_NAME
+    path = _paths(route, method)
+    valid = _exchange_request(no_token=False, dictionary=True) if route == 2 else _wire_request(server, method)
+    later = []
+    for i in range(len(valid)):
+        for m in _FLIP_MASKS:
+            body = valid[:i] + bytes([valid[i] ^ m]) + valid[i + 1:]
+            says = _pyarrow_says(body)
+            if says is not None and route != 2 and not issubclass(says, (pa.ArrowInvalid, OSError)) and is_open(_SIG_OTHER_ARROW):
+                continue  # listed as an open finding: that site is carved out, the rest is still judged
+            row = (body, (400, 200, 500) if says is None else (400,), f"a well-formed request with byte {i} changed from 0x{valid[i]:02x} to 0x{valid[i] ^ m:02x}" + (f" (pyarrow: {says.__name__})" if says is not None else " (pyarrow still reads it)"))
+            if says is not None and cls is not None and issubclass(says, cls):
+                v = _judge_real(client, path, *row)  # the counterexample's class first
+                if v:
+                    return v
+            else:
+                later.append(row)
+    for row in later:
+        v = _judge_real(client, path, *row)
+        if v:
+            return v
+    return None
+
+
+def _real_malformed_bodies(route: int, cls=None, no_token: bool = False, corrupt: bool = False) -> str | None:  # noqa: ANN001
     """Malformed IPC on a real route: every such body must be answered 400 + Arrow error body.
-    `cls`: the class of the counterexample — the bodies pyarrow answers with it come first."""
+    `cls`: the class of the counterexample — the bodies pyarrow answers with it come first.
+    `corrupt`: also the single-byte corruptions of a well-formed request (items (e), (g))."""
     server, client = _battery_client(False)
     method = _UNARY_NAME if route == 0 else _STREAM_NAME
     path = _paths(route, method)
     valid = _exchange_request(no_token=False) if route == 2 else _wire_request(server, method)
+    if corrupt and cls is not None and not issubclass(cls, (pa.ArrowInvalid, OSError, StopIteration)):
+        v = _real_corrupted_bodies(route, cls)
+        if v:
+            return v
+        corrupt = False
     groups = [
         (OSError, [(_BAD_HEADER, "a bad IPC message header (pyarrow: OSError)")] + [(valid[:n], f"a well-formed request cut after {n} of {len(valid)} bytes") for n in range(len(valid))]),  # cut inside / before the end-of-stream marker
         (pa.ArrowInvalid, [(_GARBAGE, "bytes that are no IPC stream (pyarrow: ArrowInvalid)")]),
@@ -1174,7 +1266,7 @@ def _real_malformed_bodies(route: int, cls=None, no_token: bool = False) -> str 
             v = _judge_real(client, path, body, (400, 200) if cut_tail else (400,), what)
             if v:
                 return v
-    return None
+    return _real_corrupted_bodies(route, cls) if corrupt else None
 
 
 def _real_wrong_content_type(route: int, ctype, stream_method: bool) -> str | None:  # noqa: ANN001
@@ -1278,7 +1370,7 @@ from vgi_rpc.utils import IpcValidation  # noqa: E402
 # What pyarrow raises while decoding the request's OWN bytes (real byte strings for each are in the
 # replay): ArrowInvalid (no IPC stream), ArrowIOError = OSError (bad message header, a body that
 # stops inside a message), StopIteration (the stream ends before a batch).
-_G_EXC = [pa.ArrowInvalid, OSError, StopIteration]
+_G_EXC = [pa.ArrowInvalid, OSError, StopIteration] + [c for c in _DECODER_EXC if c is not pa.ArrowInvalid]  # index 2 stays StopIteration (pre:)
 _NG = len(_G_EXC)
 _GOUT = {"stage": 0, "kind": 0, "method": ""}
 _G_STAGES = ["opening the stream", "reading the request batch", "draining to the end of the stream"]
@@ -1354,14 +1446,14 @@ def _replay_decoding(a: dict) -> str | None:
     """Real bytes on the real app: a bad message header, EVERY proper prefix of a well-formed
     request, garbage, a schema-only stream — each must be answered 400 + Arrow error body (a cut that
     only loses the end-of-stream marker may be served as a plain 200)."""
-    return _real_malformed_bodies(a["route"], _G_EXC[a["kind"]])
+    return _real_malformed_bodies(a["route"], _G_EXC[a["kind"]], corrupt=True)
 
 
 @cond(q=40, t=120, encoded=[_wire_mod._read_request, _app_unary._run_unary_sync, _app_stream._run_stream_init_sync, _resources._RpcResource.on_post, _resources._StreamInitResource.on_post],
       stubs=["pyarrow.ipc (inside the real _read_request) := open_stream / the first read / a read while draining raises the chosen class; otherwise yields an empty well-formed request batch",
              "_deserialize_params / _validate_call_signature / _validate_params := no-ops (never reached: the read fails)", "_set_error_response := recorder + real _set_http_status", "falcon Request/Response := attribute bags"],
-      bound="{unary, init} route x failure while opening | reading the batch | draining x {ArrowInvalid, OSError (ArrowIOError), StopIteration}",
-      replay=_replay_decoding, signature=lambda a, c: "C15:request-decoding:" + ("io-error-not-400" if _G_EXC[a["kind"]] is OSError else "decoder-error-not-400"))
+      bound="{unary, init} route x failure while opening | reading the batch | draining x {OSError (ArrowIOError), StopIteration, every pa.ArrowException subclass of the live pyarrow but ArrowMemoryError/ArrowCancelled: %d classes}" % _NG,
+      replay=_replay_decoding, signature=lambda a, c: "C15:request-decoding:io-error-not-400" if _G_EXC[a["kind"]] is OSError else ("C15:request-decoding:decoder-error-not-400" if a["kind"] <= 2 else _SIG_OTHER_ARROW))
 def undecodable_request_is_400(route: int, stage: int, kind: int) -> bool:
     """
     pre: 0 <= route <= 1 and 0 <= stage <= 2 and 0 <= kind < _NG
@@ -1371,6 +1463,8 @@ def undecodable_request_is_400(route: int, stage: int, kind: int) -> bool:
     # Malformed IPC => 400, whatever class pyarrow uses to say so: a truncated body or a bad message
     # header is an ArrowIOError (= OSError), not an ArrowInvalid.  (stage 2 + StopIteration is the
     # regular end of a well-formed stream, excluded.)  Only the request's own bytes are decoded here.
+    if kind > 2 and is_open(_SIG_OTHER_ARROW):
+        return True  # listed as an open finding: exactly that site is carved out
     method = _STREAM_NAME if route == 1 else _UNARY_NAME
     _GOUT["stage"], _GOUT["kind"], _GOUT["method"] = stage, kind, method
     _OUT["step"] = _STEP_NONE
